@@ -99,7 +99,9 @@ def run(pid, tier, seed):
             mt_local = rng.choice([last, last + 1, min(end_of_year, last + 86400 * 3), end_of_year - rng.randrange(0, 3600)])
             mt_local = max(mt_local, last)
             mtime = mt_local - tz_min * 60
-            cont = rng.choice(["plain", "plain", "gz", "gz-fname", "gz-mtime0", "tar", "bz2", "xz", "lz4"])
+            # (every stored form comes round with every block size: not left to chance)
+            CONTS = ["plain", "gz", "bz2", "tar", "xz", "gz-fname", "lz4", "gz-mtime0", "plain"]
+            cont = CONTS[fi % len(CONTS)]
             name = "y%d.log" % fi
             decoy = mtime - 86400 * 900  # a misleading container mtime
             if cont == "plain":
@@ -119,7 +121,7 @@ def run(pid, tier, seed):
             else:
                 files, arg, mtimes = {"y%d.tar" % fi: gen.tar_bytes([(name, blob)], mtime=mtime)}, "y%d.tar" % fi, {"y%d.tar" % fi: decoy}
             tzs = "%s%02d:%02d" % ("+" if tz_min >= 0 else "-", abs(tz_min) // 60, abs(tz_min) % 60)
-            B = rng.choice([64, 128, 4096, 65536])
+            B = [64, 4096, 128, 65536][(fi // len(CONTS)) % 4]
             base = ["--tz-offset=" + tzs, "--color", "never", "--blocksz", str(B), "-u", "-d", "%Y%m%dT%H%M%S"]
             exp_lines = [time.strftime("%Y%m%dT%H%M%S", time.gmtime(u)).encode() + b":" + l for u, l in zip(true_utc, lines)]
             walk = {"locs": locs, "tz_min": tz_min, "y0": time.gmtime(mt_local).tm_year, "fos": [sum(len(x) for x in lines[:j]) for j in range(len(lines))]}
